@@ -203,17 +203,27 @@ Definition check_extractors : extractors := no_extractors.
    real compiler handed to ast.parse during the case *)
 Definition stmt_table := list (string * bool).
 Definition call_table := list (string * (option (nat * list string) * bool)).
+(* for the statements Python rejected: `e.lineno - 1 if e.lineno else 0` of the real SyntaxError (0 when Python's
+   parser gave up: the compiler's replacement SyntaxError has no lineno) *)
+Definition errline_table := list (string * nat).
 
 (* `dflt` decides the answer for a string that is not in the tables; every case is evaluated with
    both defaults and must agree with the implementation under both, so a model that asks about a
    string the implementation never asked about is seen *)
-Definition table_pyparse (st : stmt_table) (ct : call_table) (dflt : bool) : pyparse :=
+(* the blamed-line oracle only decides the INDEX of a "stmt:python-syntax" diagnostic, which `agrees` (outcome
+   classes) does not look at; harness/diag_index_tie.py, which compares indices, passes the recorded table.  A
+   statement that is not in the table gets 0 under one default and 97 under the other: a model that blames a
+   line of a statement the implementation never handed to ast.parse is seen. *)
+Definition table_pyparse_e (st : stmt_table) (et : errline_table) (ct : call_table) (dflt : bool) : pyparse :=
   mkPyparse
     (fun code => match lookup code st with Some b => b | None => dflt end)
     (fun args => match lookup args ct with
                  | Some (shape, _) => shape
                  | None => if dflt then Some (0, []) else None
-                 end).
+                 end)
+    (fun code => match lookup code et with Some k => k | None => if dflt then 0 else 97 end).
+Definition table_pyparse (st : stmt_table) (ct : call_table) (dflt : bool) : pyparse :=
+  table_pyparse_e st [] ct dflt.
 Definition table_is_call (ct : call_table) (args : string) : bool :=
   match lookup args ct with Some (_, b) => b | None => true end.
 
